@@ -119,6 +119,13 @@ def check_texts(ctx, texts, specs, name, prop_lex, prop_front="C03"):
                                   "impl_err": derr}, prop=prop_lex)
             continue
         parsed = any(e.get("ev") == "ast" for e in evs)
+        pred = o.get("parse")
+        if pred is not None and (pred["kind"] == "accept") != parsed:
+            # SeedGrammar: the token sequence is / is not a program
+            ctx.violation("the parser %s %r, the grammar of the specification says %s"
+                          % ("accepted" if parsed else "rejected", t, pred["kind"]), script=t,
+                          detail={"predicted": pred, "stderr": se.decode(errors="replace")[:400]}, prop=prop_front)
+            continue
         if parsed:
             continue         # accepted: what running it does belongs to the evaluator properties
         # rejected by the front end: the protocol
@@ -141,8 +148,19 @@ def check_texts(ctx, texts, specs, name, prop_lex, prop_front="C03"):
                 allowed.add((stoks[-1]["el"], stoks[-1]["ec"]))
             if serr:
                 allowed.add((serr["l"], serr["c"]))
+            exact = None
+            if pred is not None and pred["kind"] == "syntax":
+                if pred["at"] <= len(stoks):
+                    exact = (stoks[pred["at"] - 1]["l"], stoks[pred["at"] - 1]["c"])
+                elif stoks:
+                    exact = (stoks[-1]["el"], stoks[-1]["ec"])
+            elif pred is not None and pred["kind"] == "lexical":
+                exact = (serr["l"], serr["c"])
             if l > nlines + 1:
                 bad = "reported line %d exceeds the number of lines + 1" % l
+            elif exact is not None and (l, c) != exact:
+                bad = "reported position %d:%d, but the first token that cannot continue a program is at %d:%d" \
+                    % (l, c, exact[0], exact[1])
             elif (l, c) not in allowed:
                 bad = "reported position %d:%d is not the start of a token, the lexical error or the end of input" % (l, c)
             elif serr and (l, c) == (serr["l"], serr["c"]):
